@@ -30,6 +30,37 @@ def load_census():
     return set(json.load(open(CENSUS))["functions"])
 
 
+def load_signatures():
+    return json.load(open(CENSUS)).get("signatures", {})
+
+
+def alias_renamed(allf, rel, census, sigs, log):
+    """A census function that is gone from a file that was parsed, while exactly one new function with the same file, return type and
+    parameter types appeared there, has been renamed: the new name is mapped back to the name the rules know."""
+    present = {fd["name"] for fd in allf}
+    files = {rel(fd["file"]) for fd in allf}
+    for name, (f, ret, ptypes, _static) in sorted(sigs.items()):
+        if name in present or f not in files:
+            continue
+        cands = [fd for fd in allf if fd["name"] not in census and rel(fd["file"]) == f and fd.get("ret") == ret
+                 and [p["t"] for p in fd["params"]] == ptypes]
+        names = {fd["name"] for fd in cands}
+        if len(names) != 1:
+            continue
+        new = names.pop()
+        for fd in allf:
+            if fd["name"] == new:
+                fd["name"] = name
+                fd["renamed_from"] = new
+            for n in fd["nodes"]:
+                if n.get("callee") == new:
+                    n["callee"] = name
+                if n["k"] == "DeclRefExpr" and n.get("dk") == "func" and n.get("name") == new:
+                    n["name"] = name
+        present.add(name)
+        log.append(("<renamed>", "%s -> %s" % (new, name)))
+
+
 def _addr_taken(fds):
     taken = set()
     for fd in fds:
